@@ -15,7 +15,9 @@
                plain `%` (MIN % -1 panics).
      [Fixed]   the code with fixes/num-overflow-panics-in-every-build.diff (checked_add/sub/mul/neg
                + expect: a panic in EVERY build), fixes/num-byte-zero-divisor.diff (zero guard extended
-               to Byte(0)) and fixes/num-rem-min-by-minus-one.diff (wrapping_rem: MIN % -1 = 0).
+               to Byte(0)), fixes/num-rem-min-by-minus-one.diff (wrapping_rem: MIN % -1 = 0) and
+               fixes/num-shl-lost-bits.diff (`<<` through ExactShl::exact_shl: a left shift that loses a
+               bit is an error; the original checked_shl only looked at the shift amount).
    The correspondence check (vlib/c05.py) runs [Fixed] against the real code in debug AND release. *)
 From MS Require Export Num.NumDefs.
 
@@ -136,26 +138,44 @@ Definition checked_sh (t : ity) (o : sop) (x n : Z) : option Z :=
   if n <? width t then Some match o with Shl => wrap t (x * 2 ^ n) | Shr => Z.shiftr x n end
   else None.
 
-Definition shift_arm (t : ity) (inj : Z -> value) (o : sop) (x : Z) (amount : option Z) : res value :=
+(* fixed code, bitops.rs ExactShl::exact_shl (x, n : u32):
+     let shifted = self.checked_shl(amount)?; (shifted >> amount == self).then_some(shifted)
+   (`>>` stays checked_shr) *)
+Definition exact_sh (t : ity) (o : sop) (x n : Z) : option Z :=
+  match o with
+  | Shl => match checked_sh t Shl x n with
+           | Some r => if Z.shiftr r n =? x then Some r else None
+           | None => None
+           end
+  | Shr => checked_sh t Shr x n
+  end.
+
+(* the function named by `safe=` in generic_bitop!(@checked ..) *)
+Definition sh_fn (v : version) : ity -> sop -> Z -> Z -> option Z :=
+  match v with Orig _ => checked_sh | Fixed => exact_sh end.
+
+Definition shift_arm (f : ity -> sop -> Z -> Z -> option Z)
+                     (t : ity) (inj : Z -> value) (o : sop) (x : Z) (amount : option Z) : res value :=
   match amount with
   | None => Err                                              (* try_into()? *)
-  | Some n => match checked_sh t o x n with
+  | Some n => match f t o x n with
               | Some z => Ok (inj z)
               | None => Err                                  (* .context("operation overflow/underflow")? *)
               end
   end.
 
-Definition shift_op (o : sop) (a b : value) : res value :=
+Definition shift_op (v : version) (o : sop) (a b : value) : res value :=
+  let arm := shift_arm (sh_fn v) in
   match a, b with
-  | Int x, Int y => shift_arm I32 Int o x (try_u32 y)
-  | Int x, Big y => shift_arm I128 Big o (as_ I128 x) (try_u32 y)
-  | Int x, Byte y => shift_arm I32 Int o x (Some (as_u32 y))
-  | Big x, Big y => shift_arm I128 Big o x (try_u32 y)
-  | Big x, Int y => shift_arm I128 Big o x (try_u32 y)
-  | Big x, Byte y => shift_arm I128 Big o x (Some (as_u32 y))
-  | Byte x, Byte y => shift_arm U8 Byte o x (Some (as_u32 y))
-  | Byte x, Int y => shift_arm I32 Int o (as_ I32 x) (try_u32 y)
-  | Byte x, Big y => shift_arm I128 Big o (as_ I128 x) (try_u32 y)
+  | Int x, Int y => arm I32 Int o x (try_u32 y)
+  | Int x, Big y => arm I128 Big o (as_ I128 x) (try_u32 y)
+  | Int x, Byte y => arm I32 Int o x (Some (as_u32 y))
+  | Big x, Big y => arm I128 Big o x (try_u32 y)
+  | Big x, Int y => arm I128 Big o x (try_u32 y)
+  | Big x, Byte y => arm I128 Big o x (Some (as_u32 y))
+  | Byte x, Byte y => arm U8 Byte o x (Some (as_u32 y))
+  | Byte x, Int y => arm I32 Int o (as_ I32 x) (try_u32 y)
+  | Byte x, Big y => arm I128 Big o (as_ I128 x) (try_u32 y)
   | _, _ => Err
   end.
 
@@ -236,7 +256,7 @@ Definition binop_eval (v : version) (op : binop) (a b : value) : res value :=
   match op with
   | Arith o => arith v o a b
   | Bit o => bit o a b
-  | Shift o => shift_op o a b
+  | Shift o => shift_op v o a b
   | Cmp o => ord_op o a b
   | Equ Eq_ => lift Bool (equals a b)
   | Equ Ne_ => lift (fun r => Bool (negb r)) (equals a b)
